@@ -60,6 +60,22 @@ theorem transit_lon_sid (ra lon sid x : ℝ) :
 theorem parallax_lon_sid (sid ra lon x : ℝ) : capAngle360 ((sid - x) + (lon + x) - ra) = capAngle360 (sid + lon - ra) := by
   congr 1; ring
 
+/-- the site moved east by x with the (apparent, Greenwich) sidereal time of the day lower by x -/
+def shifted (t : TopAstroDay ℝ) (x : ℝ) : TopAstroDay ℝ :=
+  { t with coords := { t.coords with lon := t.coords.lon + x }, cur := { t.cur with sid := t.cur.sid - x } }
+
+/-- **all six conventional hours are unchanged** when the site moves east by x and the sidereal
+    time at local midnight is lower by x: longitude and sidereal time enter only through their sum
+    (what remains of a 15° move with one more hour of zone offset is the 0.04° by which sidereal
+    time advances faster than the clock — the property's 10 seconds) -/
+theorem hours_lon_sid_invariant (p : Params ℝ) (t : TopAstroDay ℝ) (w : Weather ℝ) (x : ℝ) :
+    getHours p (shifted t x) w = getHours p t w := by
+  have hm0 : (t.cur.ra - (t.coords.lon + x) - (t.cur.sid - x)) / (Gen.TWO_PI_DEG : ℝ) =
+      (t.cur.ra - t.coords.lon - t.cur.sid) / Gen.TWO_PI_DEG := transit_lon_sid _ _ _ _
+  have hha : ∀ (d : ℝ × ℝ) (m : ℝ), hourAngle (t.cur.sid - x) t.cur.ra (t.coords.lon + x) d m =
+      hourAngle t.cur.sid t.cur.ra t.coords.lon d m := fun d m => hourAngle_lon_sid _ _ _ _ _ _
+  simp only [getHours, shurDhuhrMagh, shifted, hm0, hha]
+
 -- non-vacuity: a one-hour zone change on a Gregorian date
 example : C13.GregorianDate ⟨2023, 2, 6⟩ := by unfold C13.GregorianDate; decide
 
